@@ -90,6 +90,10 @@ def undecided(detail, backend=""):
 def _call(job):
     name, kind, func, args = job
     t0 = time.time()
+    trace = os.environ.get("VERIF_TRACE")
+    if trace:
+        with open(trace, "a") as fh:
+            fh.write("start %d %s\n" % (os.getpid(), name))
     try:
         r = func(*args)
         if r is None:
